@@ -28,7 +28,7 @@ OBLIGATIONS = [NS + t for t in [
     "pointsource_translate", "sersic_fourier_translate", "gaussPixelTerm_translate",
 ]]
 # kernels whose translated source text (Gen/Kernels.lean) is proved equal to the model kernel this property's theorems are about
-GEN_KERNELS = ["render_sersic_2d", "render_gaussian_pixel_term", "render_gaussian_fourier_term", "render_pointsource_fourier"]
+GEN_KERNELS = ["render_sersic_2d", "render_gaussian_pixel_term", "render_gaussian_fourier_term", "render_pointsource_fourier", "hybrid_broaden"]
 MIRRORED_FILES = ["pysersic/rendering.py", "pysersic/results.py"]
 ASSUMPTIONS = [
     "jnp.fft modelled as explicit DFT sums; the discretely synthesised Fourier image under transposition/mirroring is only observed (the c2r transform drops the imaginary part of the Nyquist column)",
